@@ -144,6 +144,10 @@ func (f *Fosite) DefaultClientAuthenticationStrategy(ctx context.Context, r *htt
 			return nil, err
 		} else if err := token.Claims.Valid(); err != nil {
 			return nil, errorsx.WithStack(ErrInvalidClient.WithHint("Unable to verify the request object because its claims could not be validated, check if the expiry time is set correctly.").WithWrap(err).WithDebug(err.Error()))
+		} else if !token.Claims.VerifyExpiresAt(time.Now().UTC().Unix(), true) {
+			// Claims.Valid() treats a missing or zero "exp" as "does not expire". A client assertion MUST expire (RFC 7523,
+			// section 3, rule 4); an assertion with "exp": 0 would otherwise be accepted and its jti forgotten at once.
+			return nil, errorsx.WithStack(ErrInvalidClient.WithHint("Claim 'exp' from 'client_assertion' must be set to a time in the future."))
 		}
 
 		claims := token.Claims
